@@ -168,6 +168,98 @@ class FnSpec:
         return self.expl
 
 
+class KBufSpec:
+    """Properties decided on the buffer machine: Props/<id>.v + K-buf sessions + oracles."""
+
+    def __init__(self, profiles, tags, quick=(64, 40), thorough=(2500, 50), findings=(), note=""):
+        self.profiles, self.tags, self.quick, self.thorough, self.findings, self.note = profiles, tags, quick, thorough, findings, note
+
+    def _run(self, profile, seed, n, budget):
+        import kbuf
+        t = time.time()
+        out = kbuf.run_sessions(profile, seed, n, budget)
+        bad, diags = kbuf.check_against_model(out)
+        mism = []
+        for b, txt in diags:
+            m = re.search(r"Some \((\d+), (\d+)\)", txt)
+            st = int(m.group(1)) if m else None
+            mism.append({"correspondence": "K-buf (Corr/KBuf.v check_bcase)", "profile": profile, "base_seed": seed, "session": b,
+                         "nsessions": n, "budget": budget, "meta": out["meta"][b], "first_differing_step": st,
+                         "reason_code": int(m.group(2)) if m else None,
+                         "steps": out["logs"][b][: (st + 1) if st is not None else 5][-6:]})
+        if len(bad) > len(diags):
+            mism.append({"correspondence": "K-buf", "more_mismatching_sessions": bad[len(diags):][:20]})
+        fails = []
+        for f in out["oracle"]:
+            if any(f["oracle"].startswith(t_) for t_ in self.tags) or f["oracle"] == "harness":
+                g = dict(f)
+                g.update(profile=profile, base_seed=seed, nsessions=n, budget=budget, steps=out["logs"][f["session"]][: f["step"] + 1][-8:])
+                fails.append(g)
+        nontrivial = len({short_hash(c) for c, l in zip(out["cases"], out["logs"]) if len(l) >= 6})
+        return {"name": f"K-buf/{profile}", "evaluations": sum(len(l) for l in out["logs"]), "distinct_nontrivial": nontrivial,
+                "traces": len(out["cases"]), "rule": f"K-buf profile {profile}: seeded well-nested programs over the 8 buffered JSON classes "
+                "(objects x files, per-object and backend-wide contexts, capacities, outside writes per profile); non-trivial = >= 6 recorded steps; distinct by SHA-1 of the trace",
+                "model_mismatches": mism, "oracle_failures": fails, "samples": [{"class": out["meta"][0]["class"], "steps": out["logs"][0][3:8]}] if out["logs"] else [],
+                "stats": out["stats"], "classes": out["classes"], "wall_s": round(time.time() - t, 1)}
+
+    def run(self, prop, tier, seed):
+        n, budget = self.quick if tier == "quick" else self.thorough
+        return [self._run(pf, seed + i, max(8, n // len(self.profiles)), budget) for i, pf in enumerate(self.profiles)]
+
+    def search(self, prop, tier, seed):
+        fails, ev = [], 0
+        for k in range(3):
+            for pf in self.profiles:
+                r = self._run(pf, seed + 104729 * (k + 1), 120, 45)
+                ev += r["evaluations"]
+                fails += r["oracle_failures"]
+            if fails:
+                break
+        return {"oracle_failures": fails, "evaluations": ev}
+
+    def replay(self, prop, path):
+        with open(path) as f:
+            rp = json.load(f)
+        items = rp.get("failures") or [b[1] for b in rp.get("broken", []) if isinstance(b[1], dict)]
+        res = {"fails": False, "items": []}
+        for it in items:
+            if not isinstance(it, dict) or "base_seed" not in it:
+                continue
+            r = self._run(it["profile"], it["base_seed"], it["nsessions"], it["budget"])
+            hit = [f for f in r["oracle_failures"] if f["session"] == it["session"]]
+            mm = [m for m in r["model_mismatches"] if m.get("session") == it["session"]]
+            res["items"].append({"session": it["session"], "oracle": hit[:3], "model_mismatch": bool(mm)})
+            res["fails"] = res["fails"] or bool(hit or mm)
+        return res
+
+    def probes(self, prop):
+        import probes
+        out = []
+        listed = {f["id"] for f in known_lines_for(prop)}
+        for fid in self.findings:
+            r = {"D19": probes.probe_d19}[fid]()
+            if r["reproduced"]:
+                what = next((f["what"] for f in known_lines_for(prop) if f["id"] == fid), "")
+                line = f"KNOWN-FINDING: property={prop} {fid} {what[:160]}"
+                out.append((line, True, None) if fid in listed else (line, False, {"oracle": f"{fid}-not-listed", "detail": r}))
+        return out
+
+    def trusted_base(self, prop):
+        return BASE_TRUST + ["blen_json (Corr/KBuf.v): len(json.dumps(v)) on the fragment the generator uses (no floats, escape-free ASCII strings)",
+                             "md5 modelled as identity on the encoded text (collision-freedom assumed)",
+                             "file stamp abstracts (st_size, st_mtime_ns): the harness bumps mtime on every outside write"]
+
+    def assumptions(self, prop):
+        return ["theorems are about Buffer.v; Buffer.v is tied to the code by the K-buf differential (a sample)",
+                "root-level objects with plain content; nested handles are navigated afresh for every operation",
+                "known finding D19 (shared-memory: objects stay entangled after a common session): histories are stopped at that point"] + ([self.note] if self.note else [])
+
+    def explanation(self, prop):
+        return ("Theorems in coq/Props/%s.v over Buffer.v (both strategies, all operation sequences / context nestings / capacities); Buffer.v tied to "
+                "/repo by the K-buf step-by-step differential evaluated inside Coq (results, every file's content, which files were written, reported size, "
+                "capacity, set of buffered files); property oracles evaluated on the implementation in the same runs." % prop)
+
+
 def known_lines_for(prop):
     return [f for f in load_known_findings() if f.get("property") == prop and f.get("status") == "known"]
 
@@ -245,7 +337,11 @@ CANDIDATES = {
     "C04": K1Spec("C04", ["C01/C04"]),
     "C11": K1Spec("C11", ["C11"]),
     "C12": K1Spec("C12", ["C12", "C01", "C03-result"]),
-    "C17": K1Spec("C17", ["C17"]),
+    "C17": K1Spec("C17", ["C17"], extra=[lambda prop, tier, seed: KBufSpec(["C17"], ["C17"])._run("C17", seed, 32 if tier == "quick" else 1500, 40)]),
+    "C05": KBufSpec(["C05", "C05cap"], ["C05", "C15-zero"], findings=("D19",)),
+    "C06": KBufSpec(["C06", "C06b"], ["C05", "C06"], findings=("D19",)),
+    "C07": KBufSpec(["C07", "C07cap"], ["C07", "C15-zero", "C15-capacity"]),
+    "C15": KBufSpec(["C15", "C05cap"], ["C15"]),
     "C16": K1Spec("MIX", ["C16"], extra=[lambda prop, tier, seed: __import__("k_extra").run_c16(prop, tier, seed)],
                   note="aliasing cannot be expressed inside the functional model; the aliasing oracle mutates every container reachable from arguments and results"),
     "C18": K1Spec("MIX", ["C18"], extra=[lambda prop, tier, seed: __import__("k_extra").run_c18(prop, tier, seed)]),
